@@ -37,7 +37,9 @@ fn name_gate<const N: usize>() {
         // DQUOTE is not a token character (RFC 9110 5.6.2); kept apart so that the finding is identified by its input
         assert!(!accepted, "c12.gate.dquote_accepted_in_field_name");
     } else {
-        assert!(accepted == name_ok, "c12.gate.name_validator_differs_from_lowercase_token_rule");
+        // 'only if': an accepted name is a lower-case token (a validator that is stricter than the rule is not a violation)
+        assert!(!accepted || name_ok, "c12.gate.illegal_name_byte_accepted");
+        kani::cover!(accepted && name_ok, "a_legal_name_is_accepted");
     }
     core::mem::forget(got);
 }
@@ -54,13 +56,14 @@ fn value_gate<const V: usize>() {
     let accepted = got.is_ok();
     kani::cover!(accepted, "a_value_is_accepted");
     kani::cover!(!accepted, "a_value_is_refused");
-    assert!(accepted == value_ok, "c12.gate.value_validator_differs_from_field_value_rule");
+    assert!(!accepted || value_ok, "c12.gate.illegal_value_byte_accepted");
+    kani::cover!(accepted && value_ok, "a_legal_value_is_accepted");
     core::mem::forget(got);
 }
 
 /// @check C12 quick cost=60
 /// The validator Field::parse routes every regular NAME through (engine M proves the routing), on every 1-byte name:
-/// accepted iff a lower-case token byte. So ':', upper case, CTLs, separators are refused.
+/// accepted only if a lower-case token byte. So ':', upper case, CTLs, separators are refused.
 #[kani::proof]
 #[kani::unwind(4)]
 #[kani::stub(core::str::from_utf8, stubs::from_utf8_trusting)]
@@ -87,7 +90,7 @@ fn c12_name_validator_len3() {
 }
 
 /// @check C12 quick cost=60
-/// The validator every regular VALUE is routed through, on every 1- and 2-byte value: accepted iff no CTL other than HTAB
+/// The validator every regular VALUE is routed through, on every 1- and 2-byte value: accepted only if no CTL other than HTAB
 /// and no DEL (so CR, LF, NUL are refused).
 #[kani::proof]
 #[kani::unwind(5)]
